@@ -14,5 +14,6 @@ CONSTANTS
   BkRechecksLock = TRUE
   AllowConcurrent = TRUE
   GcStopsOnUnreadableHunk = TRUE
+  GcBandsBeforeBlocks = TRUE
 INVARIANTS Inv_QuiescentNoLoss Inv_RecordedBytes Inv_CompleteSuccess Inv_SkippedReported
 CHECK_DEADLOCK FALSE
